@@ -29,7 +29,7 @@ ASSUMPTIONS = [
     "a negative interval -n fires exactly once, after step n, if the run reaches step n",
     "srun exists on the Monte Carlo drivers only; force-bias drivers are driven through run and irun",
 ]
-REQUIRED = {"splits_prepared_before_use": 100, "rebuilt_continuations": 60, "splits_checked": 300, "zero_length_pieces": 100, "observer_logs_checked": 800, "negative_interval_logs": 200, "header_checks": 300, "step_invocations_counted": 1000}
+REQUIRED = {"splits_with_observers_detached_and_attached": 100, "splits_prepared_before_use": 100, "rebuilt_continuations": 60, "splits_checked": 300, "zero_length_pieces": 100, "observer_logs_checked": 800, "negative_interval_logs": 200, "header_checks": 300, "step_invocations_counted": 1000}
 SHARD_TIMEOUT = {"quick": 900, "thorough": 3000}
 
 STEP_COUNT = {"n": 0}
@@ -96,7 +96,7 @@ def install_step_counter():
 OBS_SETS = [(1, 2, 3, 7, -1, -2, -3, -7), (2, 3), (3, -4), (4, 6, -5), (2, 7, -3), (5,), (-2,), (3, 5, -7), (2, 4, -6), (6, -1)]
 
 
-def execute(w, seed, pieces, entries, log_interval, obs_set=OBS_SETS[0], default_observers=True, prepared=False):
+def execute(w, seed, pieces, entries, log_interval, obs_set=OBS_SETS[0], default_observers=True, prepared=False, swap_after=None):
     from quansino.io.core import Observer
 
     from qv import sims
@@ -142,7 +142,17 @@ def execute(w, seed, pieces, entries, log_interval, obs_set=OBS_SETS[0], default
                     for _ in step:
                         pass
         pieces, entries = (), ()
-    for p, e in zip(pieces, entries):
+    swapped = None
+    for pi, (p, e) in enumerate(zip(pieces, entries)):
+        if swap_after is not None and pi == swap_after + 1 and swapped is None:
+            # between two pieces: one observer detached, another attached (documented file-manager calls); the first must
+            # fall silent, the second fire from the next step on
+            iv0 = obs_set[0]
+            mc.file_manager.detach_observer(f"rec{iv0}")
+            late = RecObs(mc, 1)
+            mc.file_manager.attach_observer("late", late)
+            obs["late"] = late
+            swapped = {"detached": iv0, "at_step": int(mc.step_count)}
         if e == "run" or not is_mc and e == "srun":
             mc.run(p)
             yielded += p
@@ -164,6 +174,7 @@ def execute(w, seed, pieces, entries, log_interval, obs_set=OBS_SETS[0], default
         "rst": rst.getvalue(),
         "steps_invoked": STEP_COUNT["n"],
         "yielded": yielded,
+        "swapped": swapped,
     }
 
 
@@ -197,7 +208,8 @@ def run(spec):
             wit["generators_prepared_before_use"] = True
             rec.count("splits_prepared_before_use")
         try:
-            got = execute(w, seed, parts, entries, li, obs_set, defaults, prepared)
+            swap_after = 0 if (len(parts) >= 2 and not prepared and ci % 3 == 2) else None
+            got = execute(w, seed, parts, entries, li, obs_set, defaults, prepared, swap_after)
         except Exception as ex:  # noqa: BLE001
             rec.viol(f"C15/raised/{type(ex).__name__}", f"split run raised {type(ex).__name__}: {ex}", wit)
             continue
@@ -209,11 +221,21 @@ def run(spec):
             rec.case(spec["driver"], n, parts, entries, li)
         shape = "zero-length-first-call" if parts[0] == 0 and len(parts) > 1 else ("zero-length-later-call" if zeros and len(parts) > 1 else ("split" if len(parts) > 1 else "single"))
         # 1. observers on schedule
+        sw = got.get("swapped")
+        if sw:
+            rec.count("splits_with_observers_detached_and_attached")
         for iv, calls in got["calls"].items():
             rec.count("observer_logs_checked")
+            if iv == "late":
+                exp = list(range(sw["at_step"] + 1, n + 1))
+                if calls != exp:
+                    rec.viol(f"C15/observer-schedule/attached-between-runs/{shape}", f"an observer of interval 1 attached after step {sw['at_step']} was called at steps {calls}, expected {exp}", {**wit, "calls": calls, "expected": exp})
+                continue
             if iv < 0:
                 rec.count("negative_interval_logs")
             exp = expected_calls(iv, n)
+            if sw and iv == sw["detached"]:
+                exp = [x for x in exp if x <= sw["at_step"]]
             if calls != exp:
                 sign = "positive" if iv > 0 else "negative"
                 rec.viol(f"C15/observer-schedule/{sign}-interval/{shape}", f"observer with interval {iv} was called at steps {calls}, expected {exp}", {**wit, "interval": iv, "calls": calls, "expected": exp})
